@@ -7,6 +7,7 @@
   `popLeadingGaps` / `leadingGapLength`; (3) the seven tie lemmas.
 -/
 import AgpTpf.Gen.Imp
+set_option linter.unusedSimpArgs false
 namespace AgpTpf.ImpOverlap
 open AgpTpf OverlapResult
 
@@ -226,5 +227,127 @@ theorem forIn_gaps_sub {ρ : Type} (body : Row → Int → R (PyRt.Ctl Int ρ))
     cases x with
     | frag f => simp [PyRt.forIn, hf (.frag f) a rfl, leadingGapLength_frag]
     | gap g => simp only [PyRt.forIn, hg (.gap g) a rfl, ih, leadingGapLength_gap, Row.length]; congr 2; omega
+
+/-! ### 3. the tie lemmas
+
+  `R`-monad normal form: the generated code joins the branches of an `if` with `>>= fun j => …` and ends each in `.ok`; the model is
+  written with `do`.  The lemmas below push both into the same shape. -/
+
+theorem R_bind_ok {α : Type} (x : R α) : (x >>= fun a => (Except.ok a : R α)) = x := by cases x <;> rfl
+theorem R_ok_bind {α β : Type} (a : α) (f : α → R β) : ((Except.ok a : R α) >>= f) = f a := rfl
+theorem R_pure_bind {α β : Type} (a : α) (f : α → R β) : ((pure a : R α) >>= f) = f a := rfl
+theorem R_error_bind {α β : Type} (e : Err) (f : α → R β) : ((Except.error e : R α) >>= f) = .error e := rfl
+theorem R_ite_bind {α β : Type} (c : Prop) [Decidable c] (x y : R α) (f : α → R β) :
+    ((if c then x else y) >>= f) = if c then x >>= f else y >>= f := by split <;> rfl
+theorem R_bind_assoc {α β γ : Type} (x : R α) (f : α → R β) (g : β → R γ) :
+    ((x >>= f) >>= g) = x >>= fun a => f a >>= g := by cases x <;> rfl
+theorem R_pure {α : Type} (a : α) : (pure a : R α) = .ok a := rfl
+
+/-- `discard_start`; the loop makes at most `len(rows)` tests, so `len(rows) ≤ fuel` is enough -/
+theorem discard_start_tie (o : OverlapResult) (fuel : Nat) (h : o.rows.length ≤ fuel) :
+    Gen.Imp.OverlapResult_discard_start fuel o = o.discardStart := by
+  unfold Gen.Imp.OverlapResult_discard_start discardStart
+  cases hr : o.rows with
+  | nil => simp [bind, Except.bind]
+  | cons d r =>
+    simp only [pop_zero_cons, bind, Except.bind]
+    rw [while_pop_front]
+    · intro s hs; simp [hs]
+    · intro s x t hs; simp [hs]
+    · intro s x t hs; simp [hs]
+    · rw [hr] at h; simp at h ⊢; omega
+
+theorem discard_end_tie (o : OverlapResult) (fuel : Nat) (h : o.rows.length ≤ fuel) :
+    Gen.Imp.OverlapResult_discard_end fuel o = o.discardEnd := by
+  unfold Gen.Imp.OverlapResult_discard_end discardEnd
+  cases hr : o.rows.reverse with
+  | nil =>
+    have : o.rows = [] := by simpa using hr
+    simp [this, bind, Except.bind]
+  | cons d r =>
+    simp only [pop_neg_one_of_reverse hr, bind, Except.bind]
+    rw [while_pop_back (rr := r)]
+    · simp [popLeadingGaps_snd, popLeadingGaps_fst r d.length 0]; omega
+    · intro s hs; simp [hs]
+    · intro s x t hs; simp [hs]
+    · intro s x t hs; simp [hs]
+    · simp
+    · have : o.rows.length = r.length + 1 := by rw [← List.length_reverse, hr]; simp
+      omega
+
+theorem overhang_if_start_removed_tie (o : OverlapResult) :
+    Gen.Imp.OverlapResult_overhang_if_start_removed o = o.overhangIfStartRemoved := by
+  unfold Gen.Imp.OverlapResult_overhang_if_start_removed overhangIfStartRemoved
+  cases hr : o.rows with
+  | nil => simp [bind, Except.bind]
+  | cons d r =>
+    simp only [pyGet_zero_cons, slice_one_none_cons, bind, Except.bind]
+    rw [forIn_gaps_add]
+    · intro r a hg; simp [hg]
+    · intro r a hg; simp [hg]
+
+theorem overhang_if_end_removed_tie (o : OverlapResult) :
+    Gen.Imp.OverlapResult_overhang_if_end_removed o = o.overhangIfEndRemoved := by
+  unfold Gen.Imp.OverlapResult_overhang_if_end_removed overhangIfEndRemoved
+  cases hr : o.rows.reverse with
+  | nil =>
+    have : o.rows = [] := by simpa using hr
+    simp [this, bind, Except.bind]
+  | cons d r =>
+    simp only [pyGet_neg_one_of_reverse hr, sliceRevFrom_neg_two_of_reverse hr, bind, Except.bind]
+    rw [forIn_gaps_sub]
+    · intro r a hg; simp [hg]
+    · intro r a hg; simp [hg]
+
+theorem trim_large_overhangs_tie (o : OverlapResult) (err : Int) :
+    Gen.Imp.OverlapResult_trim_large_overhangs_imp o err = o.trimLargeOverhangs err := by
+  unfold Gen.Imp.OverlapResult_trim_large_overhangs_imp trimLargeOverhangs
+  by_cases h1 : o.rows.length = 1 ∧ o.bait.length > err
+  · have h1' : (Int.ofNat o.rows.length = 1) := by simp [h1.1]
+    simp [h1, h1']
+  · have h1' : ¬ ((Int.ofNat o.rows.length = 1) ∧ o.bait.length > err) := by
+      intro hh; apply h1; refine ⟨?_, hh.2⟩; have := hh.1; simp at this; omega
+    simp only [Bool.and_eq_true, decide_eq_true_eq, h1, h1', if_false]
+    simp only [R_bind_ok, R_ok_bind, R_pure_bind, R_ite_bind, R_bind_assoc, R_pure, R_error_bind]
+    simp
+
+theorem fragment_start_if_trimmed_tie (o : OverlapResult) (f : Fragment) :
+    Gen.Imp.OverlapResult_fragment_start_if_trimmed o f = o.fragmentStartIfTrimmed f := by
+  unfold Gen.Imp.OverlapResult_fragment_start_if_trimmed fragmentStartIfTrimmed firstIs lastIs
+  simp only [rowIsFrag_eq]
+  by_cases hs : f.strand = 1
+  · cases h0 : pyGet o.rows 0 <;> simp [hs, bind, Except.bind, pure, Except.pure]
+  · cases h0 : pyGet o.rows (-1) <;> simp [hs, bind, Except.bind, pure, Except.pure]
+
+theorem exists_snoc_of_cons {α : Type} (x : α) (t : List α) : ∃ t' y, x :: t = t' ++ [y] := by
+  refine ⟨(x :: t).dropLast, (x :: t).getLast (by simp), ?_⟩
+  exact (List.dropLast_concat_getLast _).symm
+
+/-- the string literals of the source are the extracted constants the model uses -/
+theorem tags_eq : Gen.cutTag = "Cut".toList ∧ Gen.paintedTag = "Painted".toList := by decide
+
+theorem endOverhang_with_start (o : OverlapResult) (s : Int) : ({ o with start := s }).endOverhang = o.endOverhang := rfl
+
+theorem trim_fragment_tie (o : OverlapResult) (trim : Fragment) (ks ke : Bool) (newOid : Nat) :
+    Gen.Imp.OverlapResult_trim_fragment o trim ks ke newOid = o.trimFragment trim ks ke newOid := by
+  unfold Gen.Imp.OverlapResult_trim_fragment trimFragment firstIs lastIs
+  simp only [rowIsFrag_eq, ← tags_eq.1, ← tags_eq.2]
+  obtain hr | ⟨x, t, hr⟩ : o.rows = [] ∨ ∃ x t, o.rows = x :: t := by cases o.rows <;> simp
+  · simp [hr, bind, Except.bind]
+  · -- non-empty rows: first row `x`, last row `y`; `rows[0] = new` / `rows[-1] = new` cannot fail
+    obtain ⟨t', y, hy⟩ := exists_snoc_of_cons x t
+    have hfirst : pyGet o.rows 0 = .ok x := by rw [hr]; exact pyGet_zero_cons x t
+    have hlast : pyGet o.rows (-1) = .ok y := by rw [hr, hy]; exact pyGet_neg_one_snoc t' y
+    have hset0 : ∀ z, PyRt.setAt o.rows 0 z = .ok (z :: t) := fun z => by rw [hr]; exact setAt_zero_cons x z t
+    have hset1 : ∀ z, PyRt.setAt o.rows (-1) z = .ok (setLast o.rows z) := by
+      intro z; rw [hr, hy, setLast_snoc]; exact setAt_neg_one_snoc t' y z
+    simp only [hfirst, hlast, R_ok_bind, R_pure_bind, R_pure]
+    cases ha : rowIs x trim <;> cases hb : rowIs y trim <;> cases ks <;> cases ke <;>
+      by_cases hst : trim.strand = 1 <;> by_cases hso : o.startOverhang > 0 <;> by_cases heo : o.endOverhang > 0 <;>
+      simp only [hst, hso, heo, hfirst, hlast, hb, hset0, hset1, endOverhang_with_start,
+        R_ok_bind, R_pure_bind, R_pure, R_bind_ok, R_error_bind, Bool.false_eq_true, if_true, if_false,
+        decide_true, decide_false, Bool.and_true, Bool.and_false, Bool.not_true, Bool.not_false, not_true, not_false_eq_true,
+        and_true, and_false, true_and, false_and]
+    all_goals (first | rfl | (simp only [hr, List.cons_append, List.nil_append]))
 
 end AgpTpf.ImpOverlap
